@@ -73,6 +73,21 @@ fn render_html(r: &mut R, words: &[String], wrapper: (&str, &str), allow_a: bool
             s.push(*c);
             let _ = j;
         }
+        // also at word ends: the whitespace that follows then becomes a text node of its own between two elements
+        if r.p(15) {
+            if !open.is_empty() && r.p(60) {
+                let t = open.pop().unwrap();
+                s.push_str(&format!("</{t}>"));
+            } else if open.len() < 3 {
+                let t = if allow_a { r.pick(&["em", "strong", "code", "span", "a"]) } else { r.pick(&["em", "strong", "code", "span"]) };
+                // an element that ends right after the word it wraps would need the word inside; open it for the next word
+                if t == "a" {
+                    s.push_str("<a href=\"u\"></a>");
+                } else {
+                    s.push_str(&format!("<{t}></{t}>"));
+                }
+            }
+        }
     }
     while let Some(t) = open.pop() {
         s.push_str(&format!("</{t}>"));
